@@ -1,7 +1,7 @@
 """Regression over the saved seeded changes: every /verif/seeded/<id>/patch.diff is applied to a scratch worktree
 of /repo and the checks its meta.json lists with "exit 1" are run against it (must exit 1 with a VIOLATION line);
 the harmless controls (meta: expect_exit 0) must leave every listed check at exit 0.
-usage: tools/seed_regress.py [id-prefix ...]      (results: one line per (change, check); summary at the end)"""
+usage: tools/seed_regress.py [id-prefix-or-substring ...]      (results: one line per (change, check); summary at the end)"""
 import functools
 import json
 import os
@@ -24,7 +24,7 @@ def main():
     n = 0
     for sid in sorted(os.listdir(os.path.join(ROOT, "seeded"))):
         d = os.path.join(ROOT, "seeded", sid)
-        if want and not any(sid.startswith(w) for w in want):
+        if want and not any(sid.startswith(w) or w in sid for w in want):
             continue
         meta = json.load(open(os.path.join(d, "meta.json")))
         checks = meta.get("checks", {})
